@@ -364,12 +364,11 @@ def tagsPart : JVal → Except Err Str
   | .strs l => .ok (32 :: 91 :: (joinComma l ++ [93]))
   | .str [] => .ok []
   | .str s => .ok (32 :: 91 :: (joinComma (s.map (fun c => [c])) ++ [93]))    -- a string is a sequence of characters
-  | .other _ => .error .unmodelled
+  | .other _ => .error .unmodelled   -- a nested array, an object (its keys would be joined), a float
   | _ => .error .type          -- `len()` of a number / bool
 
 def strOf : JVal → Except Err Str
   | .str s => .ok s
-  | .other _ => .error .unmodelled
   | _ => .error .type          -- `str + non-str`
 
 /-- `str(record)` -/
